@@ -33,7 +33,8 @@ META = dict(
          "renegotiate_keys, SFTP requests over a real channel) is run against every loss kind (peer "
          "close(), link EOF, abrupt reset, exit of a real ProxyCommand relay process by command/SIGKILL/"
          "SIGTERM/TCP close, local close(), protocol garbage: bad MAC / data for an unknown channel / "
-         "DISCONNECT) with the call parked before the loss, made after it, and with the loss injected "
+         "DISCONNECT, and a loss first noticed by a user thread's failing write while inbound requests "
+         "needing a reply + FIN are still queued) with the call parked before the loss, made after it, and with the loss injected "
          "while the calling thread is parked at a chosen paramiko source line inside the call. After each "
          "loss the victim must report is_active()==False and every call must return or raise. The quick "
          "tier visits each call x loss cell once with rotating timing plus pinned cells; thorough visits "
@@ -56,6 +57,8 @@ META = dict(
 TIMEOUT = {"quick": 900, "thorough": 1700}
 
 LINK_LOSSES = [
+    ("send_fails_first", "global_request"),
+    ("send_fails_first", "channel_request"),
     ("peer_close", None),
     ("link_eof", None),
     ("link_abrupt", None),
@@ -146,6 +149,12 @@ def quick_cases(ctx, calls):
             out.append(mk(call, kind, var, timing, f=f))
         out.append(mk(call, "proxy_exit", PROXY_EXITS[(ci + ctx.seed) % 4], TIMINGS[(ci + ctx.seed) % 3],
                       medium="proxy", f=round(rng.random(), 3)))
+        # the loss is first seen by a user thread's failing write, while inbound messages that need a
+        # reply (then FIN) are still queued for the reader
+        sff = "channel_request" if spec["need"] in ("chan", "chanfull", "sftp") else "global_request"
+        out.append(mk(call, "send_fails_first", sff, TIMINGS[(ci + 2 + ctx.seed) % 3], f=round(rng.random(), 3)))
+        if call in ("recv", "recv_exit_status", "accept", "exec_command", "global_request", "sftp_stat"):
+            out.append(mk(call, "send_fails_first", "global_request", "before"))
         out.extend(pinned(call, ctx.seed, ci))
         if len(spec["roles"]) > 1:
             out.append(mk(call, ["peer_close", "local_close", "link_eof"][(ci + ctx.seed) % 3], None,
@@ -240,6 +249,8 @@ def loss_name(a):
         return "ProxyCommand process exit"
     if loss == "garbage":
         return "protocol garbage (%s)" % a["variant"]
+    if loss == "send_fails_first":
+        return "a failed user write (send raises EPIPE, inbound %s + FIN still queued)" % a["variant"]
     if a["medium"] == "proxy":
         return "%s over ProxyCommand" % loss
     return loss
@@ -297,6 +308,8 @@ def judge(ctx, a, res, sample=False):
     ctx.count("tap_messages_seen", v.get("msgs_total") or v.get("msgs_before") or 0)
     if v.get("relay_gone"):
         ctx.count("relay_process_exits_observed")
+    if (v.get("writer") or {}).get("outcome", "").startswith("raise"):
+        ctx.count("failed_user_writes_observed")
     if a["timing"] == "during":
         ctx.count("preemption_points_reached" if v.get("k_reached") else "preemption_points_not_reached")
         if a.get("at"):
@@ -306,7 +319,7 @@ def judge(ctx, a, res, sample=False):
         return
     witness = dict(args=a, result={k: v.get(k) for k in (
         "api", "verdict", "window", "active", "drained", "callers", "blocked", "vthread", "pthread",
-        "k", "k_where", "k_reached", "relay_gone", "v_exception", "call_made", "v_tail", "crashes", "link_log", "msgs_total", "phases", "inject_error")})
+        "k", "k_where", "k_reached", "relay_gone", "v_exception", "call_made", "v_tail", "crashes", "link_log", "msgs_total", "phases", "inject_error", "writer")})
     if verdict == "ok":
         ctx.count("transport_inactive_after_loss")
         for c in v.get("callers") or []:
@@ -490,8 +503,9 @@ def _run(ctx):
         ctx.require("relay_process_exits_observed", 8)
         for t in TIMINGS:
             ctx.require("timing_" + t, len(names))
-        for l in ("peer_close", "link_eof", "link_abrupt", "local_close", "garbage", "proxy_exit"):
+        for l in ("peer_close", "link_eof", "link_abrupt", "local_close", "garbage", "proxy_exit", "send_fails_first"):
             ctx.require("loss_" + l, len(names) - 4)
+        ctx.require("failed_user_writes_observed", len(names) - 8)
         return
     stop_at = ctx.t0 + 450
     base = [dict(c, count_lines=True) if c["timing"] == "before" else c for c in thorough_base(ctx, calls)]
